@@ -415,6 +415,34 @@ func c10DocsT(thorough bool, rng *lp.Rand) []*c10Doc {
 	for i := 0; i < r.N(12, 120); i++ {
 		docs = append(docs, &c10Doc{label: "map-heavy", what: fmt.Sprintf("map-heavy document %d", i), spec: c10MapHeavy(rng.Fork(uint64(1000 + i))), features: feats})
 	}
+	masks := []string{"application/json", "image/*", "*/*", "application/*", "*", "**", "text/plain", "image/png"}
+	for i := 0; i < r.N(40, 200); i++ {
+		content := func() map[string]any {
+			c := map[string]any{}
+			for n := 1 + rng.Intn(3); n > 0; n-- {
+				mt := lp.Pick(rng, masks)
+				switch mt {
+				case "application/json":
+					c[mt] = map[string]any{"schema": map[string]any{"type": "object", "properties": map[string]any{"a": map[string]any{"type": "string"}}}}
+				case "text/plain":
+					c[mt] = map[string]any{"schema": map[string]any{"type": "string"}}
+				default:
+					c[mt] = map[string]any{"schema": map[string]any{"type": "string", "format": "binary"}}
+				}
+			}
+			return c
+		}
+		resps := map[string]any{"200": map[string]any{"description": "ok", "content": content()}}
+		if rng.Bool() {
+			resps["default"] = map[string]any{"description": "d", "content": content()}
+		}
+		op := map[string]any{"operationId": "op", "responses": resps}
+		if rng.Bool() {
+			op["requestBody"] = map[string]any{"content": content()}
+		}
+		b, _ := json.Marshal(map[string]any{"openapi": "3.0.3", "info": map[string]any{"title": "t", "version": "1"}, "paths": map[string]any{"/m": map[string]any{"post": op}}})
+		docs = append(docs, &c10Doc{label: "media-masks", what: fmt.Sprintf("media type mask document %d", i), spec: b})
+	}
 	for _, o := range corpusObjs("C10") {
 		if d, ok := o["document"].(string); ok {
 			docs = append(docs, &c10Doc{label: "past-failures", what: fmt.Sprint(o["what"]), spec: []byte(d), features: feats})
@@ -505,6 +533,13 @@ func c10MapHeavy(rng *lp.Rand) []byte {
 		}
 		if rng.Chance(30) {
 			c["application/octet-stream"] = map[string]any{"schema": map[string]any{"type": "string", "format": "binary"}}
+		}
+		// media type masks next to concrete types and next to each other
+		bin := map[string]any{"schema": map[string]any{"type": "string", "format": "binary"}}
+		for _, mask := range []string{"image/*", "*/*", "application/*", "*", "**", "text/*"} {
+			if rng.Chance(12) {
+				c[mask] = bin
+			}
 		}
 		return c
 	}
